@@ -131,7 +131,7 @@ def _mutate(kind, obj, op):
     elif name == "remove_lanelet":
         net = obj.lanelet_network if kind == "scenario" else obj
         lls = net.lanelets
-        if len(lls) > 1:
+        if may_remove(lls, op):
             la = lls[op[1] % len(lls)]
             if kind == "scenario":
                 obj.remove_lanelet(la)
@@ -397,6 +397,11 @@ def g_query(rng, kind, obj):
     return rng.choice(qs)
 
 
+def may_remove(lls, op):
+    """remove_lanelet ops leave the last lanelet alone unless they carry the flag 'also the last one'"""
+    return len(lls) > 1 or (len(lls) == 1 and len(op) > 2 and bool(op[2]))
+
+
 def g_mutator(rng, kind, obj):
     s = rng.getrandbits(30)
     if kind == "pred":
@@ -419,7 +424,7 @@ def g_mutator(rng, kind, obj):
                            ["set_active", rng.random() < 0.5]])
     if kind == "light":
         return rng.choice([["set_elems", s, 0], ["set_offset", rng.randint(0, 9), 0], ["set_cycle", s, 0], g_tr(rng)])
-    ms = [g_tr(rng), g_tr(rng), g_tr(rng), ["add_lanelet", s], ["remove_lanelet", rng.randint(0, 20)],
+    ms = [g_tr(rng), g_tr(rng), g_tr(rng), ["add_lanelet", s], ["remove_lanelet", rng.randint(0, 20), rng.random() < 0.3],
           ["set_offset", rng.randint(0, 9), rng.randint(0, 5)], ["set_elems", s, rng.randint(0, 5)]]
     if kind == "net":
         ms += [["add_from_net", s, rng.randint(1, 3)]]
@@ -428,8 +433,29 @@ def g_mutator(rng, kind, obj):
     return rng.choice(ms)
 
 
+def gen_drain_case(rng, kind):
+    """the network is emptied lanelet by lanelet (the last one too), queried when empty, then refilled"""
+    seed = rng.getrandbits(30)
+    obj = O.make(kind, seed)
+    net = obj.lanelet_network if kind == "scenario" else obj
+    ops = [g_query(rng, kind, obj)]
+    outcome_of(query, kind, obj, ops[-1])
+    for _ in range(len(net.lanelets)):
+        ops.append(["remove_lanelet", rng.randint(0, 20), True])
+        if mutate(kind, obj, ops[-1]) is STOP:
+            return gen_case(rng, kind)
+    qs = [op for op in (g_query(rng, kind, obj) for _ in range(12)) if op[0] in ("q_pos", "q_shape", "q_polys")][:3]
+    ops += qs or [["q_pos", g_point_specs(rng)]]
+    if rng.random() < 0.6:
+        ops.append(["add_lanelet", rng.getrandbits(30)])
+        ops.append(["q_pos", g_point_specs(rng)])
+    return {"kind": kind, "seed": seed, "ops": ops}
+
+
 def gen_case(rng, kind=None):
     kind = kind or rng.choice(KINDS)
+    if kind in ("net", "scenario") and rng.random() < 0.1:
+        return gen_drain_case(rng, kind)
     seed = rng.getrandbits(30)
     obj = O.make(kind, seed)
     ops = []
@@ -616,7 +642,7 @@ def _net_op(kind, obj, op, tk):
         return f"(NAdd TokW ({qz(new_lanelet(net, op[1]).lanelet_id)}, {tk.new()}) true)"
     if name == "remove_lanelet":
         lls = net.lanelets
-        return f"(NRemove TokW {qz(lls[op[1] % len(lls)].lanelet_id)} true)" if len(lls) > 1 else None
+        return f"(NRemove TokW {qz(lls[op[1] % len(lls)].lanelet_id)} true)" if may_remove(lls, op) else None
     if name == "add_from_net":
         ids = []
         for i in range(op[2]):
@@ -732,7 +758,7 @@ def encode_case(case):
                 term = f"(SAddLanelet TokW ({qz(new_lanelet(obj.lanelet_network, op[1]).lanelet_id)}, {tk.new()}))"
             elif name == "remove_lanelet":
                 lls = obj.lanelet_network.lanelets
-                if len(lls) > 1:
+                if may_remove(lls, op):
                     lights_before = [t.traffic_light_id for t in obj.lanelet_network.traffic_lights]
                     term = ("REMOVE", lls[op[1] % len(lls)].lanelet_id, lights_before)
             elif name == "obst_tr":
